@@ -596,7 +596,11 @@ fn segs_text(p: &Segs) -> String {
                 SEG_CSET => "CSET",
                 _ => "?",
             };
-            format!("{n}{m:?}")
+            if m.len() > 8 {
+                format!("{n}[{}, {}, .. {} ({} ASNs)]", m[0], m[1], m[m.len() - 1], m.len())
+            } else {
+                format!("{n}{m:?}")
+            }
         })
         .collect::<Vec<_>>()
         .join(" ")
@@ -1213,6 +1217,49 @@ fn panic_site(msg: &str) -> String {
 
 type V3 = (String, String, String); // (sig, what, case)
 
+/// Deterministic violation collector: per signature the witness with the smallest
+/// (case length, case text) is kept, independent of thread scheduling.
+struct VioSink(Mutex<BTreeMap<String, (Violation, u64)>>);
+impl VioSink {
+    fn new() -> VioSink {
+        VioSink(Mutex::new(BTreeMap::new()))
+    }
+    fn add_all(&self, vs: Vec<V3>) {
+        if vs.is_empty() {
+            return;
+        }
+        let mut m = self.0.lock().unwrap();
+        for (sig, what, case) in vs {
+            match m.get_mut(&sig) {
+                Some((old, n)) => {
+                    *n += 1;
+                    if (case.len(), case.as_str()) < (old.case.len(), old.case.as_str()) {
+                        *old = Violation { sig, what, case };
+                    }
+                }
+                None => {
+                    m.insert(sig.clone(), (Violation { sig, what, case }, 1));
+                }
+            }
+        }
+    }
+    fn into_report(self, rep: &mut Report) {
+        for (sig, (v, n)) in self.0.into_inner().unwrap() {
+            match rep.violations.get_mut(&sig) {
+                Some((old, c)) => {
+                    *c += n;
+                    if (v.case.len(), v.case.as_str()) < (old.case.len(), old.case.as_str()) {
+                        *old = v;
+                    }
+                }
+                None => {
+                    rep.violations.insert(sig, (v, n));
+                }
+            }
+        }
+    }
+}
+
 // ===========================================================================
 // A1: prefix sets
 // ===========================================================================
@@ -1317,7 +1364,8 @@ fn a1_shape(es: &[PEntry], r: &RRoute, hit_expected: bool) -> &'static str {
         if same {
             "missed-match/two-entries-same-prefix"
         } else if shadowed {
-            "missed-match/shadowed-by-more-specific-entry"
+            let nested = good.iter().any(|g| es.iter().any(|o| o.v6 == g.v6 && o.plen > g.plen && o.plen <= r.len && !o.matches(r.v6, r.addr, r.len)));
+            if nested { "missed-match/shadowed-by-nested-entry" } else { "missed-match/shadowed-by-entry-longer-than-route" }
         } else {
             "missed-match/other"
         }
@@ -1399,7 +1447,7 @@ fn a1_eval_set(sp: &A1Space, s: usize, only: Option<(usize, usize)>, verbose: bo
 }
 
 fn a1_run(rep: &mut Report, thorough: bool, v6: bool) -> u64 {
-    let w = if thorough && !v6 { 4 } else { 3 };
+    let w = if thorough { 4 } else { 3 };
     let sp = a1_space(v6, w);
     let dist = Distinct::new();
     rep.notes.push(format!(
@@ -1411,16 +1459,16 @@ fn a1_run(rep: &mut Report, thorough: bool, v6: bool) -> u64 {
         sp.sets.len(),
         sp.routes.len()
     ));
+    let sink = VioSink::new();
     enumr::par_range(sp.sets.len() as u64, rep, |i, local| {
         let (n, vs) = a1_eval_set(&sp, i as usize, None, false, Some(&dist));
         local.evaluations += n;
-        for (sig, what, case) in vs {
-            local.violation(Violation { sig, what, case });
-        }
+        sink.add_all(vs);
         if i % 20011 == 0 {
             local.samples.push(format!("{} set#{i} {{{}}}", sp.name(), sp.set(i as usize).iter().map(|e| e.text()).collect::<Vec<_>>().join(", ")));
         }
     });
+    sink.into_report(rep);
     dist.len()
 }
 
@@ -1650,17 +1698,17 @@ fn a2_run(rep: &mut Report, thorough: bool) -> u64 {
     ));
     rep.notes.push("assume: AS-path pattern semantics on paths with empty, AS_SET or confederation segments are not pinned by the statement: GoBGP's sequence-list reading, the flat-member reading and the per-segment reading are all accepted; on AS_SEQUENCE-only paths they coincide".into());
     let jobs = (sp.sets.len() * 3) as u64;
+    let sink = VioSink::new();
     enumr::par_range(jobs, rep, |i, local| {
         let (si, oi) = ((i / 3) as usize, (i % 3) as usize);
         let (n, vs) = a2_eval(&sp, &bad, si, oi, None, false, Some(&dist));
         local.evaluations += n;
-        for (sig, what, case) in vs {
-            local.violation(Violation { sig, what, case });
-        }
+        sink.add_all(vs);
         if i % 37 == 0 {
             local.samples.push(format!("a2 set {:?} {:?}", sp.sets[si].iter().map(|&k| sp.pats[k].text()).collect::<Vec<_>>(), OPTS[oi]));
         }
     });
+    sink.into_report(rep);
     dist.len()
 }
 
@@ -2123,13 +2171,13 @@ fn a4_run(rep: &mut Report, _thorough: bool) -> u64 {
     }
     rep.notes.push(format!("a4: scalar conditions at/below/above/absent, x2 defaults: {kinds:?}"));
     rep.notes.push("assume: AS_PATH-length and RPKI conditions on a route without AS_PATH attribute / with an empty VRP table may either use length 0 / NotFound or not apply (both accepted)".into());
+    let sink = VioSink::new();
     enumr::par_range(cases.len() as u64, rep, |i, local| {
         let (n, vs) = a4_eval(i as usize, &cases[i as usize], false, Some(&dist));
         local.evaluations += n;
-        for (sig, what, case) in vs {
-            local.violation(Violation { sig, what, case });
-        }
+        sink.add_all(vs);
     });
+    sink.into_report(rep);
     rep.samples.push(format!("a4 {:?} x {}", cases[40].conds, cases[40].route.text()));
     dist.len()
 }
@@ -2333,25 +2381,29 @@ fn a5_run(rep: &mut Report, thorough: bool) -> u64 {
             "a5/level{level}: {} statement kinds (condition x disposition x actions), {} policies of <=2 statements, {} assignments of <=2 policies x {{import,export}} x {{accept,reject}} default x 2 routes",
             sp.stmts.len(),
             sp.policies.len(),
-            1 + sp.policies.len() + sp.policies.len() * sp.policies.len()
+            if level == 2 { 1 + sp.policies.len() + (sp.stmts.len() + 1) * (sp.stmts.len() + 1) } else { 1 + sp.policies.len() + sp.policies.len() * sp.policies.len() }
         ));
+        let sink = VioSink::new();
         enumr::par_range((np * np) as u64, rep, |i, local| {
             let (a, b) = ((i as usize) / np, (i as usize) % np);
             if a == 0 && b != 0 {
+                return;
+            }
+            // side sweep: two-policy assignments only of single-statement policies
+            if sp.level == 2 && b != 0 && (sp.policies[a - 1].len() > 1 || sp.policies[b - 1].len() > 1) {
                 return;
             }
             let mut sk = 0;
             let (n, vs) = a5_eval(&sp, a, b, None, false, Some(&dist), &mut sk);
             skipped.fetch_add(sk, std::sync::atomic::Ordering::Relaxed);
             local.evaluations += n;
-            for (sig, what, case) in vs {
-                local.violation(Violation { sig, what, case });
-            }
+            sink.add_all(vs);
             if i % 250_007 == 1 {
                 let p = a5_prog(&sp, a, b, Disp::Accept);
                 local.samples.push(format!("a5 assignment of {} policies / {} statements", p.policies.len(), p.policies.iter().map(|p| p.stmts.len()).sum::<usize>()));
             }
         });
+        sink.into_report(rep);
         let sk = skipped.load(std::sync::atomic::Ordering::Relaxed);
         if sk > 0 {
             rep.notes.push(format!("a5/level{level}: {sk} import programs with a next-hop action were refused by build_assignment (documented restriction; not evaluated)"));
@@ -2474,15 +2526,15 @@ fn a6_run(rep: &mut Report, _thorough: bool) -> u64 {
     rep.notes.push(format!("a6: as-prepend action (fixed ASN / leftmost) x (plain / confederation peer) x {} AS_PATHs: no panic, well-formed result, members preserved", sp.paths.len()));
     let n = (sp.paths.len() * 4) as u64;
     let dist = Distinct::new();
+    let sink = VioSink::new();
     enumr::par_range(n, rep, |i, local| {
         let (variant, pi) = ((i % 4) as usize, (i / 4) as usize);
         let vs = a6_eval(&sp, variant, pi, false);
         local.evaluations += 1;
         dist.add(hash64(format!("{variant}{}", path_class(&sp.paths[pi])).as_bytes()));
-        for (sig, what, case) in vs {
-            local.violation(Violation { sig, what, case });
-        }
+        sink.add_all(vs);
     });
+    sink.into_report(rep);
     dist.len()
 }
 
@@ -2639,13 +2691,31 @@ fn behaviour(a: &PolicyAssignment, slot: usize) -> Vec<u8> {
 
 // ---- canonical dumps through public fields --------------------------------
 
+/// The value stored per prefix may be one entry or a list of entries (a repair of the
+/// same-prefix defect changes it); the dump works for both.
+trait PrefixVals {
+    fn each(&self, f: &mut dyn FnMut(&rustybgp_table::Prefix));
+}
+impl PrefixVals for rustybgp_table::Prefix {
+    fn each(&self, f: &mut dyn FnMut(&rustybgp_table::Prefix)) {
+        f(self)
+    }
+}
+impl PrefixVals for Vec<rustybgp_table::Prefix> {
+    fn each(&self, f: &mut dyn FnMut(&rustybgp_table::Prefix)) {
+        for p in self {
+            f(p)
+        }
+    }
+}
+
 fn prefix_set_dump(s: &rustybgp_table::PrefixSet) -> String {
     let mut v: Vec<String> = Vec::new();
     for (a, m, p) in s.v4.iter() {
-        v.push(format!("{a}/{m}[{}..{}]", p.min_length, p.max_length));
+        p.each(&mut |q| v.push(format!("{a}/{m}[{}..{}]", q.min_length, q.max_length)));
     }
     for (a, m, p) in s.v6.iter() {
-        v.push(format!("{a}/{m}[{}..{}]", p.min_length, p.max_length));
+        p.each(&mut |q| v.push(format!("{a}/{m}[{}..{}]", q.min_length, q.max_length)));
     }
     v.sort();
     format!("prefix{{{} z4={:?} z6={:?}}}", v.join(","), s.zero, s.zero6)
@@ -2806,7 +2876,7 @@ impl CrudModel {
         let mut replaced = [false; 3];
         let pd = |d: Dir| if d == Dir::Import { PolicyDirection::Import } else { PolicyDirection::Export };
         let di = |d: Dir| if d == Dir::Import { 0 } else { 1 };
-        let mut store = |sys: &mut CrudSys, i: usize, new: Option<Arc<PolicyAssignment>>, replaced: &mut [bool; 3]| {
+        let store = |sys: &mut CrudSys, i: usize, new: Option<Arc<PolicyAssignment>>, replaced: &mut [bool; 3]| {
             let same = match (&sys.slot[i], &new) {
                 (Some(a), Some(b)) => Arc::ptr_eq(a, b),
                 (None, None) => true,
@@ -3051,9 +3121,9 @@ fn crud_models() -> Vec<CrudModel> {
 }
 
 fn crud_run(rep: &mut Report, thorough: bool) {
-    let depth = if thorough { 5 } else { 4 };
+    let depth = if thorough { 6 } else { 5 };
     for m in crud_models() {
-        let cfg = BfsCfg { max_depth: depth, max_secs: if thorough { 900 } else { 25 }, ..Default::default() };
+        let cfg = BfsCfg { max_depth: depth, max_secs: if thorough { 900 } else { 30 }, ..Default::default() };
         rep.notes.push(format!("{}: {} ops over names X0,X1 / S0,S1 / P0,P1, global import+export slots and one per-peer export override; depth {}", m.name, m.ops.len(), depth));
         bfs::bfs(&m, &cfg, rep);
     }
